@@ -105,10 +105,12 @@ def Modelled : GoTy → Bool
   | .map k v => keyTy k && Modelled v
   | .ptr e => (match e with | .ptr _ => false | .iface => false | _ => true) && Modelled e
 
+def strLt (a b : String) : Bool := decide (a < b)
+
 /-- canonical order of map keys: numeric, String order (= bytewise on UTF-8), false < true -/
 def keyLt : GoVal → GoVal → Bool
   | .int a, .int b => a < b
-  | .str a, .str b => a < b
+  | .str a, .str b => strLt a b
   | .bool a, .bool b => !a && b
   | _, _ => false
 
@@ -270,6 +272,10 @@ def mapOpt {α β : Type} (f : α → Option β) : List α → Option (List β)
     | some b, some bs => some (b :: bs)
     | _, _ => none
 
+def pairOpt {α β : Type} : Option α → Option β → Option (α × β)
+  | some a, some b => some (a, b)
+  | _, _ => none
+
 /-- `SetMapIndex` on a map kept in canonical order: replace the entry with an equal key or insert -/
 def mapSet (k v : GoVal) : List (GoVal × GoVal) → List (GoVal × GoVal)
   | [] => [(k, v)]
@@ -315,9 +321,7 @@ def reflectTo (r32 : Nat → Nat) : GoTy → Val → Option GoVal
   | .array n e, .undef => some (zeroOf (.array n e))
   | .array _ _, _ => none
   | .map k v, .hsh es =>
-      (mapOpt (fun kv => match reflectTo r32 k kv.1, reflectTo r32 v kv.2 with
-                         | some a, some b => some (a, b)
-                         | _, _ => none) es).map fun l => .map (mapOf l)
+      (mapOpt (fun kv => pairOpt (reflectTo r32 k kv.1) (reflectTo r32 v kv.2)) es).map fun l => .map (mapOf l)
   | .map _ _, .undef => some .nil
   | .map _ _, _ => none
   -- pointers: every kind's ReflectTo allocates one level; Binary has no pointer arm; pointer-to-pointer and
